@@ -738,7 +738,7 @@ func broadcastsParam(fn *ssa.Function) (int, bool) {
 // c02writesAreAnnounced (R02.9): a change of mailbox content in the index has its announcement built next to it.
 func c02writesAreAnnounced(c *Ctx) {
 	P, R := c.P, c.R
-	R.Explain("R02.9", "no silent index change: in gluon's server packages (db implementations excluded) every function that calls db.Transaction.RemoveMessagesFromMailbox also builds the EXPUNGE announcement (NewExpunge) for the other sessions, every function that calls db.Transaction.AddMessagesToMailbox builds the EXISTS announcement (newExists / newExistsStateUpdateWithExists), and every function that calls db.Transaction.DeleteMailboxWithRemoteID builds NewMailboxDeletedStateUpdate - in the function itself or one of its closures.  A direct transaction call elsewhere changes the authoritative mailbox without any session being told: their views never converge.")
+	R.Explain("R02.9", "no silent index change: in gluon's server packages (db implementations excluded) every function that calls db.Transaction.RemoveMessagesFromMailbox also builds the EXPUNGE announcement (NewExpunge) for the other sessions, every function that calls db.Transaction.AddMessagesToMailbox builds the EXISTS announcement (newExists / newExistsStateUpdateWithExists), and every function that calls db.Transaction.DeleteMailboxWithRemoteID builds NewMailboxDeletedStateUpdate - in the function itself, one of its closures or a helper of the package it calls.  A direct transaction call elsewhere changes the authoritative mailbox without any session being told: their views never converge.")
 	pairs := map[string][]string{
 		"RemoveMessagesFromMailbox": {"NewExpunge"},
 		"AddMessagesToMailbox":      {"newExists", "newExistsStateUpdateWithExists"},
@@ -762,7 +762,7 @@ func c02writesAreAnnounced(c *Ctx) {
 			counts[cc.Method.Name()]++
 			top := topFn(f)
 			found := false
-			for _, g := range engine.WithClosures(top) {
+			for _, g := range c.withPackageHelpers(top, engine.RelPkg(P.OwnPkgPath(top)), 1) {
 				for _, cs2 := range engine.Calls(g) {
 					if sc := cs2.Common().StaticCallee(); sc != nil {
 						for _, w := range want {
